@@ -684,6 +684,130 @@ def cli_scenario(chk, llb, S, style, name, mode, event, variant, malformed=None)
         return ("spurious-reexecution", "the command re-executed although nothing changed since the previous build", rp)
     return (None, "", rp)
 
+ABORT_TMPL = """client:
+  name: basic
+
+targets:
+  "": ["<all>"]
+
+commands:
+  C1:
+    tool: shell
+    outputs: ["<c1>"]
+    description: CC
+    args: "cp deps.src out.d && echo x >> counter"
+%s    deps: out.d
+    deps-style: %s
+%s  all:
+    tool: phony
+    inputs: ["<c1>", "<a>"]
+    outputs: ["<all>"]
+"""
+# elsewhere in the graph: a dependency cycle a <-> b (repaired: b has no inputs), or an unrelated failing command
+ABORT_REST = {
+    ("cycle", False): '  mk-a:\n    tool: shell\n    inputs: ["<c1>", "<b>"]\n    outputs: ["<a>"]\n    args: "true"\n'
+                      '  mk-b:\n    tool: shell\n    inputs: ["<a>"]\n    outputs: ["<b>"]\n    args: "true"\n',
+    ("cycle", True): '  mk-a:\n    tool: shell\n    inputs: ["<c1>", "<b>"]\n    outputs: ["<a>"]\n    args: "true"\n'
+                     '  mk-b:\n    tool: shell\n    inputs: []\n    outputs: ["<b>"]\n    args: "true"\n',
+    ("failure", False): '  mk-a:\n    tool: shell\n    inputs: ["<c1>"]\n    outputs: ["<a>"]\n    args: "exit 1"\n',
+    ("failure", True): '  mk-a:\n    tool: shell\n    inputs: ["<c1>"]\n    outputs: ["<a>"]\n    args: "true"\n',
+}
+
+def cli_aborted_history(chk, llb, S, style, name, mode, abort, event, variant):
+    """A build that ENDS UNSUCCESSFULLY (dependency cycle elsewhere in the graph, or an unrelated failing command) after
+    the command with the dependency file has run and recorded the path; then the description is repaired, the path is
+    changed, and a NEW process builds over the same database: the command must re-execute."""
+    shutil.rmtree(S, ignore_errors=True)
+    wd, cmdwd, P, spelled = layout(S, mode, name)
+    data = deps_file(style, spelled, variant)
+    open(os.path.join(cmdwd, "deps.src"), "wb").write(data)
+    if event != "create":
+        open(P, "wb").write(b"1")
+        os.utime(P, ns=(10**18, 10**18))
+    bf = os.path.join(S, "build.llbuild")
+    db = os.path.join(S, "c11.db")
+    def describe(repaired):
+        open(bf, "w").write(ABORT_TMPL % (('    working-directory: "%s"\n' % wd) if wd else "", style, ABORT_REST[(abort, repaired)]))
+    counter = os.path.join(cmdwd, "counter")
+    log = []
+    def build(label):
+        rc, out, err = vlib.sh([llb, "buildsystem", "build", "--serial", "--chdir", S, "-f", bf, "--db", db], timeout=60)
+        n = len(open(counter).read().split()) if os.path.exists(counter) else 0
+        log.append(dict(step=label, exit=rc, executions_so_far=n, output=(out + err)[-400:]))
+        return rc, n
+    rp = dict(aborted=dict(style=style, name=repr(name), name_hex=hx(name), mode=mode, abort=abort, event=event, variant=variant),
+              path=repr(P), spelled_in_deps_file=repr(spelled), deps_file_repr=repr(data), working_directory=wd, sandbox=S, builds=log,
+              oracle="a new llbuild process per build over one database; executions of the command counted through its side-effect file")
+    describe(False)
+    rc, n = build("build that ends unsuccessfully (%s elsewhere in the graph)" % abort)
+    if rc == 0 or n != 1:
+        return ("setup", "the aborted build did not fail after running the command once (exit %d, %d executions)" % (rc, n), rp)
+    describe(True)
+    if event == "modify":
+        open(P, "wb").write(b"22")
+        os.utime(P, ns=(10**18 + 5 * 10**9, 10**18 + 5 * 10**9))
+    elif event == "delete":
+        os.unlink(P)
+    elif event == "create":
+        open(P, "wb").write(b"1")
+    rc, n = build("new process, same database, description repaired, after %s of the discovered path" % event)
+    if rc != 0:
+        return ("aborted-then-repaired-build-fails", "the build of the repaired description fails (exit %d)" % rc, rp)
+    if n != 2:
+        return ("change-not-honoured-after-aborted-build",
+                "the command reported reading %r in a build that ended unsuccessfully (%s); after the %s of that path a new process over the same database "
+                "did not re-execute it (%d executions)" % (P, abort, {"modify": "modification", "delete": "deletion", "create": "creation"}[event], n), rp)
+    rc, n = build("new process, nothing changed")
+    if rc != 0 or n != 2:
+        return ("spurious-reexecution", "the command re-executed (or the build failed) although nothing changed since the previous build (exit %d, %d executions)" % (rc, n), rp)
+    return (None, "", rp)
+
+def aborted_part(chk):
+    base = os.path.join(sandbox(), "aborted")
+    shutil.rmtree(base, ignore_errors=True)
+    os.makedirs(base)
+    llb = private_llbuild(base)
+    names = [b"hdr.h", b"h d", b"a:b c", b'"config"', b"./h"]
+    hist = []
+    i = 0
+    if chk.quick():
+        for style in STYLES:
+            for abort in ("cycle", "failure"):
+                for event in EVENTS[:3] if abort == "cycle" else EVENTS[:1]:
+                    hist.append((style, names[i % len(names)], ["relative", "relative-wd", "absolute"][i % 3], abort, event, i))
+                    i += 1
+    else:
+        for style in ALL_STYLES:
+            for abort in ("cycle", "failure"):
+                for mode in ("relative", "relative-wd", "absolute", "symlink-wd"):
+                    for event in EVENTS[:3]:
+                        hist.append((style, names[i % len(names)] if mode != "symlink-wd" else DOT_NAMES[i % 4], mode, abort, event, i))
+                        i += 1
+    builds = ok = skipped = 0
+    for k, (style, name, mode, abort, event, variant) in enumerate(hist):
+        S = os.path.join(base, "a%d" % k)
+        key, what, rp = cli_aborted_history(chk, llb, S, style, name, mode, abort, event, variant)
+        builds += len(rp["builds"])
+        if key == "setup":
+            skipped += 1
+            chk.notes.setdefault("aborted_histories_not_applicable", []).append(dict(history=rp["aborted"], why=what, builds=rp["builds"]))
+            continue
+        chk.count(("aborted", style, name, mode, abort, event))
+        if k == 0:
+            chk.cov["aborted_sample"] = dict(history=rp["aborted"], builds=[(b["step"], b["exit"], b["executions_so_far"]) for b in rp["builds"]])
+        if key:
+            chk.violation(key, what, rp, found_input=True, broken="c11 oracle (a change of a discovered path re-executes the command) after a build that ended unsuccessfully, new process, same database")
+        else:
+            ok += len(rp["builds"])
+            shutil.rmtree(S, ignore_errors=True)
+    chk.cov["aborted_histories"] = len(hist)
+    chk.cov["aborted_histories_not_applicable"] = skipped
+    chk.cov["aborted_builds"] = builds
+    chk.cov["traces_validated_against_impl"] = chk.cov.get("traces_validated_against_impl", 0) + ok
+    if skipped * 2 > len(hist):
+        chk.violation("aborted-histories-setup", "most histories with an unsuccessful build could not be set up (the build did not fail after running the command once)",
+                      dict(examples=chk.notes.get("aborted_histories_not_applicable", [])[:3]), found_input=False, broken="harness: aborted-build histories")
+
 def private_llbuild(base):
     """a private copy of the freshly built llbuild: other checks may relink _work/b-hooks/bin/llbuild while the
     histories below run (the copy is taken under the lock that guards that build directory)"""
@@ -938,6 +1062,7 @@ def run(chk):
     # only when no oracle produced a failing input
     guarded(chk, "writer", writer_part)
     guarded(chk, "cli", cli_part)
+    guarded(chk, "aborted", aborted_part)
     guarded(chk, "inprocess", inprocess_part)
     guarded(chk, "byte-strings", deps_part, report=False)
     report_disagreements(chk, "parsers")
@@ -953,7 +1078,7 @@ def run(chk):
                       rule="parsers: corpus, all strings over 7-8 (makefile) / 4-6 (dependency-info) special bytes up to length 5-7, every truncation of valid files, grammar mutations, random bytes, "
                            "writer outputs for path lists over an alphabet with every special byte (3 separators, 1-3 rules), malformed families; each through the normal build, the ASan build and the model. "
                            "glue: words over '/.a' up to length 4 x 11 working directories. cli: style x path spelling x (relative|absolute) x (with|without working-directory) x (modify|delete|create|none). "
-                           "in-process: one BuildSystemFrontend (deps_driver.cpp) used for 7-9 builds with modify / delete / create of the discovered path in between, 3 styles x spellings x modes x with/without database. "
+                           "aborted: a build that ends unsuccessfully (cycle elsewhere / unrelated failing command) after the command recorded the path, then repair + change + new process over the same database. in-process: one BuildSystemFrontend (deps_driver.cpp) used for 7-9 builds with modify / delete / create of the discovered path in between, 3 styles x spellings x modes x with/without database. "
                            "non-trivial = the implementation emits at least one event (parsers), relative word (glue), history with a change (cli, in-process); distinct by request / scenario",
                       trusted=["hand-written models coq/Parse/MakeDeps.v, DepInfo.v, DepsGlue.v tied by correspondence", "harness/cpp/parse_driver.cpp", "harness/cpp/deps_driver.cpp",
                                "extraction (ExtrOcamlBasic) + ocaml/vmodel_parse.ml", "clang-14 AddressSanitizer/UBSan as the observer of reads outside the buffer"])
@@ -974,6 +1099,14 @@ def replay(chk, rp):
         key, what, r2 = cli_scenario(chk, private_llbuild(os.path.dirname(S)), S, sc["style"], unhx(sc["name_hex"]), sc["mode"], sc["event"], sc["variant"],
                                      malformed=unhx(sc["malformed_hex"]) if sc.get("malformed_hex") else None)
         print("scenario replayed: %s" % (("FAILS: " + key + " - " + what) if key else "passes"))
+        for b in r2["builds"]:
+            print("  ", b["step"], "exit", b["exit"], "executions", b["executions_so_far"])
+    ab = rp.get("aborted")
+    if ab:
+        base = sandbox() + "-replay"
+        os.makedirs(base, exist_ok=True)
+        key, what, r2 = cli_aborted_history(chk, private_llbuild(base), os.path.join(base, "aborted"), ab["style"], unhx(ab["name_hex"]), ab["mode"], ab["abort"], ab["event"], ab["variant"])
+        print("aborted-build history replayed: %s" % (("FAILS: " + key + " - " + what) if key else "passes"))
         for b in r2["builds"]:
             print("  ", b["step"], "exit", b["exit"], "executions", b["executions_so_far"])
     ip = rp.get("inprocess")
